@@ -3,6 +3,9 @@
 use crate::common::{Args, Report};
 
 pub mod c04;
+pub mod c06;
+pub mod c10;
+pub mod c15;
 pub mod c19;
 pub mod c20;
 pub mod demo;
@@ -12,6 +15,9 @@ pub mod monitors;
 pub fn run(args: &Args, r: &mut Report) -> bool {
     match args.prop.as_str() {
         "C04" => c04::run(args, r),
+        "C06" => c06::run(args, r),
+        "C10" => c10::run(args, r),
+        "C15" => c15::run(args, r),
         "C19" => c19::run(args, r),
         "C20" => c20::run(args, r),
         "DEMO" => demo::run(args, r),
